@@ -357,11 +357,15 @@ def apply_boundary_conditions(
         for idx in reflective:
             # Reflect values outside [0, 1] back into the domain
             val = u[..., idx]
-            # Use floor division to determine number of reflections
-            n_reflect = np.floor(val).astype(int)
+            # Use floor division to determine number of reflections.
+            # Keep the count in floating point: converting to int overflows
+            # for very large |val| and breaks the fold.
+            n_reflect = np.floor(val)
             remainder = val - n_reflect
             # Odd number of reflections means we need to flip
-            u[..., idx] = np.where(n_reflect % 2 == 0, remainder, 1.0 - remainder)
+            u[..., idx] = np.where(
+                np.mod(n_reflect, 2.0) == 0, remainder, 1.0 - remainder
+            )
 
     return u
 
